@@ -135,6 +135,13 @@ func (o *OracleC16) OnOut(n *Node, st *Step, out *Out) {
 				o.viol(n, "proposals_closer_than_minimum", "height %d proposed %.3f s after height %d, the minimum block time is %.3f s (tolerance %.3f s)", p.H, float64(gap)/1e9, p.H-1, float64(T)/1e9, float64(tol)/1e9)
 				return
 			}
+			// "empty blocks wait the maximum interval": whatever happens in between (also a
+			// notification whose transaction is gone again), the next proposal is not later than
+			// the maximum block time after the previous one
+			if X > 0 && gap > X+tol {
+				o.viol(n, "proposal_later_than_maximum", "height %d proposed %.3f s after height %d, the maximum block time is %.3f s (tolerance %.3f s)", p.H, float64(gap)/1e9, p.H-1, float64(X)/1e9, float64(tol)/1e9)
+				return
+			}
 			if st.Op == OpNewTx && st.Evicted && cur.ntx == 0 {
 				// the pool notified and the transaction was gone when the library looked: "a
 				// notification produces a proposal promptly" and "no empty proposal before the
@@ -177,7 +184,9 @@ func (o *OracleC16) AfterCall(n *Node, st *Step) {
 	}
 	// a new-transaction notification while the primary is subscribed and waiting produces the proposal in that very call
 	if st.Op == OpNewTx {
-		if h, ok := o.subAt[n.id]; ok && n.d != nil && h == st.PreBI && st.PreV == 0 {
+		// (if the notified transaction has left the pool again by the time the library looks, a
+		// prompt empty proposal and going on waiting for the maximum are both within the property)
+		if h, ok := o.subAt[n.id]; ok && n.d != nil && h == st.PreBI && st.PreV == 0 && !st.Evicted {
 			o.viol(n, "no_prompt_proposal_on_notification", "height %d: the primary had subscribed for transactions, a transaction reached its pool and OnNewTransaction was called, but no proposal was broadcast in that call", h)
 		}
 	}
